@@ -403,6 +403,38 @@ def c10_case(rec, hub, rng, tier):
             xs = max(float(np.max(np.abs(res[solver]["inflow"]))) * float(np.max(S.dt_of(cfg["items"]))), float(np.max(np.abs(pres))))
             cmp(f"SD/{solver}->ID:stock", idm2.stock.values, pres, "inflow-driven-does-not-reproduce-the-prescribed-stock", scale=xs,
                 negative_inflow=bool(np.any(res[solver]["inflow"] < 0)))
+        # labels of very different magnitude side by side (tonnes of steel beside grams of a trace metal), stocks that also shrink:
+        # every label is the inverse of its own inflow-driven run, judged on its OWN scale
+        rest_n = int(np.prod(cfg["shape"][1:])) if len(cfg["shape"]) > 1 else 1
+        if rest_n >= 2:
+            mags = 10.0 ** rng.integers(-12, 1, size=cfg["shape"][1:]).astype(float)
+            wob = rng.uniform(0.85, 1.3, size=cfg["shape"])
+            pres2 = np.cumsum(rng.uniform(0.0, 1.0, size=cfg["shape"]), axis=0) * 0 + (10.0 + np.cumsum(rng.uniform(-0.6, 1.0, size=cfg["shape"]), axis=0).clip(-5, None)) * wob * mags
+            for solver in ("manual", "lapack"):
+                sdm = make_stock(fd, cfg, "StockDrivenDSM", solver=solver, lm=build_lm(fd, cfg), stock=pres2)
+                sdm.compute()
+                Rm = S.results_of(sdm)
+                idm3 = make_stock(fd, cfg, "InflowDrivenDSM", lm=build_lm(fd, cfg), inflow=Rm["inflow"])
+                idm3.compute()
+                for idx in itertools.product(*[range(n_) for n_ in cfg["shape"][1:]]):
+                    sl_ = (slice(None),) + idx
+                    own = max(float(np.max(np.abs(Rm["inflow"][sl_]))) * float(np.max(S.dt_of(cfg["items"]))), float(np.max(np.abs(pres2[sl_]))), 1e-300)
+                    cmp(f"SD/{solver}->ID:stock:per-label", idm3.stock.values[sl_], pres2[sl_], "inflow-driven-does-not-reproduce-the-prescribed-stock:label-on-its-own-scale", scale=own,
+                        label_index=list(idx), label_magnitude=float(mags[idx]), negative_inflow=bool(np.any(Rm["inflow"][sl_] < 0)))
+        # the same stock-driven object once more with another prescribed stock that is empty in its first years
+        for solver in ("manual", "lapack"):
+            sdr = make_stock(fd, cfg, "StockDrivenDSM", solver=solver, lm=build_lm(fd, cfg), stock=pres)
+            sdr.compute()
+            pres3 = np.array(pres, dtype=float)
+            pres3[: int(rng.integers(1, max(2, nt // 2)))] = 0.0
+            sdr.stock.values[...] = pres3
+            sdr.compute()
+            fresh3 = make_stock(fd, cfg, "StockDrivenDSM", solver=solver, lm=build_lm(fd, cfg), stock=pres3)
+            fresh3.compute()
+            A3, B3 = S.results_of(sdr), S.results_of(fresh3)
+            s3 = max(float(np.max(np.abs(B3["inflow"]))), 1e-300)
+            for k in ("inflow", "outflow"):
+                cmp(f"SD/{solver}:recomputed-with-leading-empty-years:{k}", A3[k], B3[k], "recomputed-stock-driven-model-differs-from-a-fresh-one", scale=s3)
         sc = max(float(np.max(np.abs(res["manual"]["inflow"]))), 1e-300)
         for k in ("inflow", "outflow", "stock_by_cohort", "outflow_by_cohort"):
             cmp(f"manual==lapack:{k}", res["manual"][k], res["lapack"][k], "solvers-disagree",
